@@ -177,6 +177,19 @@ impl Pay for u64 {
         Some(*self)
     }
 }
+impl Pay for [u64; 2] {
+    const BITS: u32 = 64;
+    fn make(tag: u64) -> Self {
+        [tag, !tag]
+    }
+    fn tag(&self) -> Option<u64> {
+        if self[1] == !self[0] {
+            Some(self[0])
+        } else {
+            None
+        }
+    }
+}
 impl Pay for u128 {
     const BITS: u32 = 64;
     fn make(tag: u64) -> Self {
@@ -248,13 +261,15 @@ impl<T: Pay> Pay for D<T> {
     }
 }
 
-const TYPES: [&str; 6] = ["u8", "u8x3", "u64", "u128", "u64x32", "u8x2000"];
+// u64x2: 64-byte nodes, u8x2000: 2048-byte nodes — node sizes that divide the page size exactly
+const TYPES: [&str; 7] = ["u8", "u8x3", "u64", "u64x2", "u128", "u64x32", "u8x2000"];
 
 fn node_layout(ty: &str) -> (usize, usize) {
     match ty {
         "u8" => CQueue::<u8>::verif_node_layout(),
         "u8x3" => CQueue::<[u8; 3]>::verif_node_layout(),
         "u64" => CQueue::<u64>::verif_node_layout(),
+        "u64x2" => CQueue::<[u64; 2]>::verif_node_layout(),
         "u128" => CQueue::<u128>::verif_node_layout(),
         "u64x32" => CQueue::<[u64; 32]>::verif_node_layout(),
         _ => CQueue::<[u8; 2000]>::verif_node_layout(),
@@ -787,6 +802,8 @@ pub fn exec(input: &str) -> String {
                     ("u8x3", true) => exec_cq::<D<[u8; 3]>>(&header, &body, &mut out),
                     ("u64", false) => exec_cq::<u64>(&header, &body, &mut out),
                     ("u64", true) => exec_cq::<D<u64>>(&header, &body, &mut out),
+                    ("u64x2", false) => exec_cq::<[u64; 2]>(&header, &body, &mut out),
+                    ("u64x2", true) => exec_cq::<D<[u64; 2]>>(&header, &body, &mut out),
                     ("u128", false) => exec_cq::<u128>(&header, &body, &mut out),
                     ("u128", true) => exec_cq::<D<u128>>(&header, &body, &mut out),
                     ("u64x32", false) => exec_cq::<[u64; 32]>(&header, &body, &mut out),
